@@ -41,7 +41,7 @@ class C06(F.PropCheck):
             ty = rng.choice([c['IN_MONO'], c['IN_MONO'], c['IN_BI'], c['IN_MOTION'], c['IN_SENSOR']])
             fl = rng.choice([0, c['IN_FLAG_ON_PRESS']])
             r = rng.choice(rel)
-            inputs += [rng.choice([6, 7, 8, 9, 10, 11]), ty, fl, r[0] if ty != c['IN_SENSOR'] else 255, rng.choice([6, 7]) if ty == c['IN_SENSOR'] else 255]
+            inputs += [rng.choice([6, 7, 8, 9, 10, 11]), ty, fl, r[0] if ty != c['IN_SENSOR'] else 255, rng.choice([8, 9]) if ty == c['IN_SENSOR'] else 255]
         tags = []
         evs = [C7.cfg_event(1, 1, rng.choice([0, 0, 1]), False, rel, t2, [], [ninp] + inputs), ('REG', [], b'')]
         room = rng.choice([0, 1, 2, 3, 3, 3])      # iterates after each event: 3 always leaves room
@@ -116,8 +116,9 @@ class C06(F.PropCheck):
                     if level(i) != want:
                         v.append('OUTPUT after the set-value request (channel %d, value %d) the relay gpio %d is at logical level %d' % (ch, e[1][1], rel[i][0], level(i)))
                     sender = e[1][3] if e[0] == 'SETV' else 0
-                    timed_cd = e[1][2] > 0 and e[1][2] < 2**31 and bool(rel[i][3] & CD) and (e[1][1] == 1 or True)
-                    cls = 'BURST-TIMED-SET' if (drops and timed_cd and qprev == (0, 0)) else ('QUEUE-FULL' if drops else None)
+                    # the handler alone (queue and buffer empty before it) issued more calls than the queue holds: only possible
+                    # when it also sends a timer state, i.e. on a countdown-capable channel (timed command, or cancelling a running timer)
+                    cls = 'BURST-SET' if (drops and bool(rel[i][3] & CD) and qprev == (0, 0)) else ('QUEUE-FULL' if drops else None)
                     expect_res.append((k, ch, sender & 0xFFFFFFFF if sender < 0 else sender, 1 if level(i) == want else 0, cls))
                     if cls: blame[ch] = cls
                 else:
@@ -151,7 +152,7 @@ class C06(F.PropCheck):
         return v[:6]
 
     def finding_key(self, case, what):
-        if what.startswith('BURST-TIMED-SET'): return 'handler-burst-exceeds-out-queue:timed-set-value-on-countdown-channel'
+        if what.startswith('BURST-SET'): return 'handler-burst-exceeds-out-queue:timed-set-value-on-countdown-channel'
         if what.startswith('QUEUE-FULL'): return 'out-queue-full:calls-of-several-events-between-two-iterates'
         return None
 
